@@ -246,6 +246,152 @@ class Opaque:
         return "<" + " ".join(str(x) for x in self.sig) + ">"
 
 
+class EnumCls(Opaque):
+    """an Enum class of the repository as a value: equal to the uninterpreted `<free Name>` (so everything that only compares stays as it was), but it can be iterated
+    (members in declaration order, aliases left out), subscripted by member name, called with a member value and asked for members / __members__ / its own methods."""
+    __slots__ = ("model",)
+
+    def __init__(self, model):
+        super().__init__("free", model.name)
+        self.model = model
+
+    def __iter__(self):
+        return iter(self.model.iteration())
+
+    def __len__(self):
+        return len(self.model.iteration())
+
+
+class EnumMember(Opaque):
+    """a member of such a class: equal to the uninterpreted `<attr <free Name> Member>`; .name / .value, the attributes its __init__ stores, the properties and methods of the
+    class body are interpreted (from the class's own source)."""
+    __slots__ = ("model",)
+
+    def __init__(self, model, name):
+        super().__init__("attr", Opaque("free", model.name), name)
+        self.model = model
+
+
+class EnumModel:
+    """what the interpreter knows of one Enum class (extracted from its ClassDef; nothing is imported or run): member names in declaration order with their value expressions,
+    the functions of the class body."""
+    ENUM_BASES = ("Enum", "IntEnum", "StrEnum", "Flag", "IntFlag")
+
+    def __init__(self, cls_node):
+        self.name = cls_node.name
+        self.node = cls_node
+        self.exprs = {}
+        for n in cls_node.body:
+            t = n.targets[0] if isinstance(n, ast.Assign) and len(n.targets) == 1 else (n.target if isinstance(n, ast.AnnAssign) and n.value is not None else None)
+            if isinstance(t, ast.Name) and not (t.id.startswith("_") and t.id.endswith("_")) and not t.id.startswith("__"):
+                self.exprs[t.id] = n.value
+        self.methods = {n.name: n for n in cls_node.body if isinstance(n, ast.FunctionDef)}
+        self.cls = EnumCls(self)
+        self.members = {n: EnumMember(self, n) for n in self.exprs}
+        self._values = None
+        self._fields = {}
+
+    @classmethod
+    def of(cls, cls_node):
+        """the model if the class derives (directly) from an Enum base, else None."""
+        if cls_node is not None and any(last_attr(b) in cls.ENUM_BASES for b in cls_node.bases) and not cls_node.keywords:
+            return cls(cls_node)
+        return None
+
+    def kind_of(self, f):
+        decos = {last_attr(d.func if isinstance(d, ast.Call) else d) for d in f.decorator_list}
+        if decos - {"classmethod", "staticmethod", "property", "cached_property", "lru_cache", "cache"}:
+            return None  # a decorator this model does not know: the function stays uninterpreted
+        return "class" if "classmethod" in decos else ("static" if "staticmethod" in decos else ("property" if decos & {"property", "cached_property"} else "method"))
+
+    def values(self):
+        """{member name: frozen value}; member values are interpreted without this model (a tuple of numbers and uninterpreted constants of other classes)."""
+        if self._values is None:
+            vals = {}
+            for i, (n, e) in enumerate(self.exprs.items()):
+                if isinstance(e, ast.Call) and last_attr(e.func) == "auto":
+                    vals[n] = ("auto", i)  # auto(): a value of its own by construction
+                else:
+                    v = Sim().ev(e, {})
+                    if isinstance(v, Opaque):
+                        raise CannotEval(f"value of the enum member {self.name}.{n} is not interpreted: {u(e)[:40]}")
+                    vals[n] = v
+            self._values = vals
+        return self._values
+
+    def iteration(self):
+        """members in declaration order; a member whose value repeats an earlier one is an alias and is not visited (Enum semantics)."""
+        seen, out = [], []
+        for n, v in self.values().items():
+            fv = _freeze(v)
+            if fv in seen:
+                continue
+            seen.append(fv)
+            out.append(self.members[n])
+        return out
+
+    def canonical(self, name):
+        """the member a name stands for (an alias is the first member with that value)."""
+        vals = self.values()
+        fv = _freeze(vals[name])
+        return self.members[next(n for n, v in vals.items() if _freeze(v) == fv)]
+
+    def by_value(self, sim, v, node):
+        if isinstance(v, Opaque):
+            raise CannotEval(f"{self.name}(<uninterpreted value>)")
+        for n, mv in self.values().items():
+            if type(mv) is type(v) and _freeze(mv) == _freeze(v):
+                return self.members[n]
+        raise _Sig("error", f"ValueError: {v!r} is not a valid {self.name}", node, "ValueError")
+
+    def class_attr(self, sim, attr):
+        if attr in self.members:
+            return self.members[attr]
+        if attr == "__members__":
+            return dict(self.members)
+        if attr == "__name__":
+            return self.name
+        return Opaque("attr", Opaque("free", self.name), attr)
+
+    def fields_of(self, sim, member):
+        """attributes the class's own __init__ stores for this member (Enum hands it the member value, a tuple unpacked)."""
+        nm = member.sig[2]
+        if nm not in self._fields:
+            init = self.methods.get("__init__")
+            obj = Record()
+            if init is not None:
+                v = self.values()[nm]
+                sim.apply(init, list(v) if isinstance(v, tuple) else [v], {}, {params_of(init)[0]: obj}, f"{self.name}.__init__")
+            self._fields[nm] = obj.fields
+        return self._fields[nm]
+
+    def member_attr(self, sim, member, attr):
+        if attr == "name":
+            return member.sig[2]
+        if attr == "value":
+            return self.values()[member.sig[2]]
+        f = self.methods.get(attr)
+        if f is not None and self.kind_of(f) == "property":
+            return sim.apply(f, [], {}, {params_of(f)[0]: member}, f"{self.name}.{attr}")
+        if f is None and "__getattr__" not in self.methods:
+            fields = self.fields_of(sim, member)
+            if attr in fields:
+                return fields[attr]
+        return Opaque("attr", member, attr)
+
+    def call(self, sim, recv, attr, args, kwargs, node):
+        """recv.attr(*args, **kwargs) for recv the class or one of its members; NotImplemented if the class body has no such function (or one this model does not interpret)."""
+        f = self.methods.get(attr)
+        kind = self.kind_of(f) if f is not None else None
+        if kind == "class":
+            return sim.apply(f, args, kwargs, {params_of(f)[0]: self.cls}, f"{self.name}.{attr}")
+        if kind == "static":
+            return sim.apply(f, args, kwargs, {}, f"{self.name}.{attr}", skip_first=False)
+        if kind == "method" and isinstance(recv, EnumMember):
+            return sim.apply(f, args, kwargs, {params_of(f)[0]: recv}, f"{self.name}.{attr}")
+        return NotImplemented
+
+
 def _has_opaque(v):
     if isinstance(v, Opaque):
         return True
@@ -298,7 +444,8 @@ class _Sig(Exception):
 _MUTATORS = {"add", "update", "append", "extend", "insert", "setdefault", "pop", "remove", "discard", "clear", "sort", "reverse", "subtract", "difference_update", "intersection_update",
              "symmetric_difference_update", "popitem", "appendleft", "extendleft"}
 _PURE_METHODS = {"get", "keys", "values", "items", "copy", "count", "index", "union", "intersection", "difference", "symmetric_difference", "issubset", "issuperset", "isdisjoint",
-                 "most_common", "elements", "join", "format", "lower", "upper", "isupper", "islower", "isdigit", "isalpha", "strip", "lstrip", "rstrip", "split", "startswith", "endswith", "replace", "title", "casefold"}
+                 "most_common", "elements", "join", "format", "lower", "upper", "isupper", "islower", "isdigit", "isalpha", "strip", "lstrip", "rstrip", "split", "startswith", "endswith", "replace", "title", "casefold",
+                 "capitalize", "swapcase", "rsplit", "splitlines", "partition", "rpartition", "removeprefix", "removesuffix", "isalnum", "isspace", "istitle", "find", "rfind", "zfill"}
 _SIM_TYPES = {"dict": dict, "list": list, "str": str, "bytes": bytes, "int": int, "float": float, "tuple": tuple, "set": set, "bool": bool}
 
 
@@ -314,15 +461,17 @@ def _sim_builtins(sim):
             "sum": sum, "min": min, "max": max, "bool": sim.truth, "str": str, "repr": repr, "int": int, "float": float, "abs": abs, "filter": lambda f, x: [v for v in sim.items(x) if sim.truth(f(v) if f else v)],
             "map": lambda f, *a: [f(*p) for p in zip(*[sim.items(x) for x in a])], "iter": lambda x: iter(sim.items(x)), "next": next, "getattr": sim._getattr,
             "collections.Counter": _c.Counter, "Counter": _c.Counter, "collections.OrderedDict": _c.OrderedDict, "OrderedDict": _c.OrderedDict,
-            "collections.defaultdict": _c.defaultdict, "defaultdict": _c.defaultdict, "collections.deque": _c.deque, "deque": _c.deque}
+            "collections.defaultdict": _c.defaultdict, "defaultdict": _c.defaultdict, "collections.deque": _c.deque, "deque": _c.deque,
+            "re.sub": re.sub, "re.findall": re.findall, "re.split": re.split}  # pure functions of texts (an uninterpreted argument makes the result uninterpreted, see call())
 
 
 class Sim:
     """interprets extracted statements / expressions on the values above. hook(call, env, sim) may interpret a call itself (return NotImplemented to decline)."""
 
-    def __init__(self, hook=None, max_steps=40000, consts=None):
+    def __init__(self, hook=None, max_steps=40000, consts=None, enums=None):
         self.hook = hook
         self.consts = consts or {}  # dotted name -> value, for attribute chains rooted in a free name (constants of another module)
+        self.enums = enums or {}  # class name -> EnumModel: Enum classes of the repository whose members / iteration / methods are interpreted (a free name or <module>.<name>)
         self.steps = 0
         self.max_steps = max_steps
         self.depth = 0
@@ -339,11 +488,18 @@ class Sim:
         """the elements a loop over v visits (sets in a fixed order)."""
         if isinstance(v, (set, frozenset)):
             return sorted(v, key=repr)
+        if isinstance(v, EnumCls):
+            return v.model.iteration()
         if isinstance(v, (list, tuple, dict, str)) or type(v).__name__ in ("Counter", "OrderedDict", "defaultdict", "deque", "dict_keys", "dict_values", "dict_items", "list_iterator"):
             return list(v)
         raise CannotEval(f"iteration over {type(v).__name__} {v!r}"[:80])
 
     def _getattr(self, obj, name, *default):
+        if isinstance(obj, (EnumCls, EnumMember)) and isinstance(name, str):
+            known = name in obj.model.members if isinstance(obj, EnumCls) else (name in ("name", "value") or name in obj.model.methods or name in obj.model.fields_of(self, obj))
+            if known or not default:
+                return obj.model.class_attr(self, name) if isinstance(obj, EnumCls) else obj.model.member_attr(self, obj, name)
+            return default[0]
         if isinstance(obj, Opaque) and isinstance(name, str):
             return Opaque("attr", obj, name)
         if isinstance(obj, Record) and isinstance(name, str):
@@ -371,7 +527,11 @@ class Sim:
         if isinstance(e, ast.Constant):
             return e.value
         if isinstance(e, ast.Name):
-            return env[e.id] if e.id in env else (self.builtins[e.id] if e.id in self.builtins else Opaque("free", e.id))
+            if e.id in env:
+                return env[e.id]
+            if e.id in self.enums:
+                return self.enums[e.id].cls
+            return self.builtins[e.id] if e.id in self.builtins else Opaque("free", e.id)
         if isinstance(e, ast.Attribute):
             if self.consts:
                 d = dotted(e)
@@ -382,7 +542,13 @@ class Sim:
                 return v.fields[e.attr]
             if isinstance(v, SelfObj):
                 return Opaque("attr", Opaque("free", "self"), e.attr)
+            if isinstance(v, EnumCls):
+                return v.model.class_attr(self, e.attr)
+            if isinstance(v, EnumMember):
+                return v.model.member_attr(self, v, e.attr)
             if isinstance(v, Opaque):
+                if v.sig[0] == "free" and e.attr in self.enums and v.sig[1] != "self":
+                    return self.enums[e.attr].cls  # <module alias>.<Enum class>
                 return Opaque("attr", v, e.attr)
             raise CannotEval(f"attribute {u(e)[:50]} of a {type(v).__name__}")
         if isinstance(e, ast.Subscript):
@@ -391,6 +557,10 @@ class Sim:
                 k = slice(*[None if x is None else self.ev(x, env) for x in (e.slice.lower, e.slice.upper, e.slice.step)])
             else:
                 k = self.ev(e.slice, env)
+            if isinstance(v, EnumCls) and isinstance(k, str):
+                if k in v.model.members:
+                    return v.model.members[k]
+                raise _Sig("error", f"KeyError in {u(e)[:50]}", e, "KeyError")  # Enum[name] for a name that is no member
             if isinstance(v, Opaque):
                 return Opaque("item", v, _freeze(k) if not isinstance(k, slice) else repr(k))
             try:
@@ -475,7 +645,20 @@ class Sim:
             except (KeyError, TypeError, ZeroDivisionError, ValueError, OverflowError) as x:
                 raise CannotEval(f"{u(e)[:50]}: {type(x).__name__}")
         if isinstance(e, ast.JoinedStr):
-            return "".join(str(v.value) if isinstance(v, ast.Constant) else repr(self.ev(v.value, env)) for v in e.values)
+            out = []
+            for v in e.values:
+                if isinstance(v, ast.Constant):
+                    out.append(str(v.value))
+                    continue
+                x = self.ev(v.value, env)
+                if isinstance(x, (str, int, float, bool, type(None))) and v.conversion in (-1, 115) and v.format_spec is None:
+                    out.append(str(x))  # {x} / {x!s} of a plain value is its text
+                elif isinstance(x, (str, int, float)) and not isinstance(x, bool) and v.conversion == -1 and isinstance(v.format_spec, ast.JoinedStr) \
+                        and all(isinstance(p_, ast.Constant) for p_ in v.format_spec.values):
+                    out.append(format(x, "".join(str(p_.value) for p_ in v.format_spec.values)))
+                else:
+                    out.append(repr(x))  # an uninterpreted value / a container inside a message: the wording decides nothing
+            return "".join(out)
         if isinstance(e, ast.NamedExpr):
             v = self.ev(e.value, env)
             env[e.target.id] = v
@@ -528,6 +711,13 @@ class Sim:
         if any(isinstance(a, ast.Starred) for a in e.args) or any(k.arg is None for k in e.keywords):
             raise CannotEval(f"{u(e)[:50]}: * / ** arguments")
         d = dotted(e.func)
+        if d == "next" and "next" not in env and 1 <= len(e.args) <= 2 and isinstance(e.args[0], ast.GeneratorExp) and not e.keywords:
+            vals = self.ev(e.args[0], env)  # a fresh generator consumed once: its first element, the default, or StopIteration
+            if vals:
+                return vals[0]
+            if len(e.args) == 2:
+                return self.ev(e.args[1], env)
+            raise _Sig("error", f"StopIteration in {u(e)[:50]}", e, "StopIteration")
         args = [self.ev(a, env) for a in e.args]
         kwargs = {k.arg: self.ev(k.value, env) for k in e.keywords}
         if d in self.builtins and d.split(".")[0] not in env:
@@ -536,6 +726,8 @@ class Sim:
             except (CannotEval, _Sig):
                 raise
             except Exception as x:
+                if d == "next" and isinstance(x, StopIteration):
+                    raise _Sig("error", f"StopIteration in {u(e)[:50]}", e, "StopIteration")
                 if any(isinstance(a, Opaque) for a in args):
                     return Opaque("call", d, _freeze(args), _freeze(kwargs))  # a builtin applied to an uninterpreted value is uninterpreted
                 if d in ("int", "float", "len", "abs", "min", "max", "sum") and isinstance(x, (TypeError, ValueError)) and not any(_has_opaque(a) for a in args):
@@ -543,10 +735,22 @@ class Sim:
                 raise CannotEval(f"{u(e)[:50]}: {type(x).__name__}")
         if d == "isinstance" and len(args) == 2 and dotted(e.args[1]) in _SIM_TYPES:
             if isinstance(args[0], Opaque):
+                if isinstance(args[0], EnumMember) and _SIM_TYPES[dotted(e.args[1])] not in (int, str):
+                    return False
                 raise CannotEval(f"{u(e)[:50]}: type of an uninterpreted value")
             return isinstance(args[0], _SIM_TYPES[dotted(e.args[1])])
+        if d == "isinstance" and len(args) == 2 and isinstance(args[1], EnumCls) and "isinstance" not in env:
+            if isinstance(args[0], EnumMember):
+                return args[0].model is args[1].model
+            if not isinstance(args[0], (Opaque, Record)):
+                return False  # a plain value (text, number, None, container) is no member
+            raise CannotEval(f"{u(e)[:50]}: type of an uninterpreted value")
         if isinstance(e.func, ast.Attribute):
             recv = self.ev(e.func.value, env)
+            if isinstance(recv, (EnumCls, EnumMember)):
+                r = recv.model.call(self, recv, e.func.attr, args, kwargs, e)
+                if r is not NotImplemented:
+                    return r
             if isinstance(recv, SelfObj) and e.func.attr not in recv.fields:
                 recv = Opaque("free", "self")
             if isinstance(recv, Opaque):
@@ -564,6 +768,8 @@ class Sim:
                     return "<formatted text>"  # a message built from uninterpreted values: its wording decides nothing
                 raise CannotEval(f"{u(e)[:50]}: {type(x).__name__}")
         f = self.ev(e.func, env)
+        if isinstance(f, EnumCls) and len(args) == 1 and not kwargs:
+            return f.model.by_value(self, args[0], e)
         if callable(f) and not isinstance(f, Opaque):
             return f(*args, **kwargs)
         return Opaque("call", f, _freeze(args), _freeze(kwargs))
@@ -572,27 +778,38 @@ class Sim:
         """interpret the whole body of `func` for the arguments of `call` (evaluated in env); the value it returns (None on fall-through)."""
         if self.depth >= 4:
             raise CannotEval("call depth")
-        a = func.args
-        if a.vararg or a.kwarg or any(isinstance(x, ast.Starred) for x in call.args) or any(k.arg is None for k in call.keywords):
+        if any(isinstance(x, ast.Starred) for x in call.args) or any(k.arg is None for k in call.keywords):
             raise CannotEval(f"{u(call)[:50]}: * / ** arguments")
         names = params_of(func)
-        pos = names[1:] if names and names[0] in ("self", "cls") else names
+        if len(call.args) > len(names[1:] if names and names[0] in ("self", "cls") else names):
+            raise CannotEval(f"{u(call)[:50]}: too many arguments")
+        return self.apply(func, [self.ev(x, env) for x in call.args], {k.arg: self.ev(k.value, env) for k in call.keywords}, extra, u(call)[:50])
+
+    def apply(self, func, args, kwargs, extra=None, what="call", skip_first=True):
+        """interpret the whole body of `func` for argument VALUES; the first parameter is not filled from args when it is called self / cls or is bound in `extra`."""
+        if self.depth >= 4:
+            raise CannotEval("call depth")
+        a = func.args
+        if a.vararg or a.kwarg:
+            raise CannotEval(f"{what}: * / ** parameters")
+        names = params_of(func)
+        pos = names[1:] if skip_first and names and (names[0] in ("self", "cls") or names[0] in (extra or {})) else names
         new = dict(extra or {})
         defaults = dict(zip(names[len(names) - len(a.defaults):], a.defaults))
         defaults.update({k.arg: d_ for k, d_ in zip(a.kwonlyargs, a.kw_defaults) if d_ is not None})
         for n_, d_ in defaults.items():
             new[n_] = self.ev(d_, {})
-        if len(call.args) > len(pos):
-            raise CannotEval(f"{u(call)[:50]}: too many arguments")
-        for n_, x in zip(pos, call.args):
-            new[n_] = self.ev(x, env)
-        for k in call.keywords:
-            if k.arg not in pos and k.arg not in [x.arg for x in a.kwonlyargs]:
-                raise CannotEval(f"{u(call)[:50]}: unknown keyword {k.arg}")
-            new[k.arg] = self.ev(k.value, env)
+        if len(args) > len(pos):
+            raise CannotEval(f"{what}: too many arguments")
+        for n_, x in zip(pos, args):
+            new[n_] = x
+        for k, x in kwargs.items():
+            if k not in pos and k not in [x_.arg for x_ in a.kwonlyargs]:
+                raise CannotEval(f"{what}: unknown keyword {k}")
+            new[k] = x
         missing = [n_ for n_ in pos if n_ not in new]
         if missing:
-            raise CannotEval(f"{u(call)[:50]}: no argument for {missing}")
+            raise CannotEval(f"{what}: no argument for {missing}")
         self.depth += 1
         try:
             self.run(func.body, new, None)
@@ -714,6 +931,13 @@ class Sim:
             if s.exc is None and self.handling:
                 raise self.handling[-1]
             x = s.exc.func if isinstance(s.exc, ast.Call) else s.exc
+            if isinstance(x, ast.Name) and x.id in env:
+                # an exception object held in a local (`err = KeyError(...)`; `except E as err`): the class it was built from, unknown (None) if that cannot be told
+                v = env[x.id]
+                if isinstance(v, Opaque) and v.sig[0] == "exception":
+                    raise _Sig("raise", None, s, v.sig[1])
+                built = v.sig[1] if isinstance(v, Opaque) and v.sig[0] == "call" and isinstance(v.sig[1], Opaque) else (v if isinstance(v, Opaque) else None)
+                raise _Sig("raise", None, s, built.sig[-1] if built is not None and built.sig[0] in ("free", "attr") and isinstance(built.sig[-1], str) else None)
             raise _Sig("raise", None, s, last_attr(x) if x is not None else None)
         elif isinstance(s, ast.Break):
             raise _Sig("break", None, s)
@@ -783,10 +1007,10 @@ class Sim:
             raise CannotEval(f"{u(s)[:50]}: {type(x).__name__}")
 
 
-def simulate(stmts, env, keep=None, hook=None, then=None, consts=None):
+def simulate(stmts, env, keep=None, hook=None, then=None, consts=None, enums=None):
     """interpret the (kept) statements on env. -> (kind, value, node): kind is fallthrough (value = `then` evaluated afterwards, if given) | return | raise | break | continue.
     CannotEval propagates (the caller reports 'not recognised')."""
-    sim = Sim(hook, consts=consts)
+    sim = Sim(hook, consts=consts, enums=enums)
     try:
         sim.run(stmts, env, keep)
     except _Sig as s:
@@ -958,12 +1182,41 @@ def run(chk):
     FR = ldr.cls("TrackFileReader")
     sr_methods = ldr.methods(SR)
     # role: an error helper is a short method of the reader that has no normal exit (O10.3 demands it of _error); a call to one ends the interpretation with `raise`
-    raising = set()
-    for n_, f_ in sr_methods.items():
-        if len(stmts_of(f_.body)) <= 3 and any(isinstance(x, ast.Raise) for x in walk_body(f_)):
-            g_ = cfg_of(f_)
-            if g_.exit.id not in g_.reachable([g_.entry]):
-                raising.add(n_)
+    ldr_funcs = {f_.name: f_ for f_ in ldr.tree.body if isinstance(f_, (ast.FunctionDef, ast.AsyncFunctionDef))}
+
+    def raised_classes(f_, depth=0):
+        """(has a normal exit, {class names it raises; None for one that cannot be told}) - a helper of the class / module that the function hands the work to is followed."""
+        g_ = cfg_of(f_)
+        normal = g_.exit.id in g_.reachable([g_.entry])
+        defs_ = local_defs(f_)
+        out = set()
+        for n in walk_body(f_):
+            if isinstance(n, ast.Raise):
+                x = n.exc
+                if isinstance(x, ast.Name) and isinstance(defs_.get(x.id), ast.Call):
+                    x = defs_[x.id]  # the exception object is built first and raised from a local
+                x = x.func if isinstance(x, ast.Call) else x
+                out.add(last_attr(x) if isinstance(x, (ast.Name, ast.Attribute)) and (last_attr(x) or "x")[:1].isupper() else None)
+        if normal and depth < 2:
+            # no raise of its own on some path: does the last statement hand over to a function that never returns normally?
+            last = stmts_of(f_.body)[-1] if stmts_of(f_.body) else None
+            c = last.value if isinstance(last, (ast.Expr, ast.Return)) and isinstance(last.value, ast.Call) else None
+            h = None
+            if c is not None and isinstance(c.func, ast.Attribute) and isinstance(c.func.value, ast.Name) and c.func.value.id == "self":
+                h = sr_methods.get(c.func.attr)
+            elif c is not None and isinstance(c.func, ast.Name):
+                h = ldr_funcs.get(c.func.id)
+            if h is not None and h is not f_:
+                h_normal, h_classes = raised_classes(h, depth + 1)
+                if not h_normal:
+                    return False, out | h_classes
+            elif c is not None and not is_logging_stmt(last) and dotted(c.func) is not None and dotted(c.func).split(".")[0] not in ("logging", "logger", "self", "print", "console"):
+                return True, out | {None}  # handed to something outside the class / module: not followed
+        return normal, out
+
+    # (a helper that hands the message on to another function of the class / module that never returns normally counts as well)
+    raising = {n_ for n_, f_ in sr_methods.items() if len(stmts_of(f_.body)) <= 3 and not raised_classes(f_)[0]}
+    raising_funcs = {n_ for n_, f_ in ldr_funcs.items() if len(stmts_of(f_.body)) <= 3 and not raised_classes(f_)[0]}
     # role: the key reader is the method of the class that is called most often as self.<m>(<spec>, "<literal key>", ...)
     n_reads = {}
     for f_ in sr_methods.values():
@@ -992,6 +1245,8 @@ def run(chk):
             f = e.func
             if oracle and last_attr(f) in oracle and not (isinstance(f, ast.Attribute) and isinstance(f.value, ast.Name) and f.value.id == "self"):
                 return oracle[last_attr(f)]  # a function of another module whose answer the rule fixes for this run (e.g. io.is_archive)
+            if isinstance(f, ast.Name) and f.id in raising_funcs and f.id not in env:
+                raise _Sig("raise", None, e)  # an error helper written as a function of the module
             if not (isinstance(f, ast.Attribute) and isinstance(f.value, ast.Name) and f.value.id == "self" and ("self" not in env or isinstance(env["self"], SelfObj))):
                 return NotImplemented
             if f.attr in raising:
@@ -1086,19 +1341,66 @@ def run(chk):
     vpar = params_of(fh)[1]
     # registry keys: every string literal the parameter is compared with (any orientation, `in` tuples included); one entry per occurrence
     lits = [c.value for n in walk_body(fh) if isinstance(n, ast.Compare) and any(name_of(x) == vpar for x in ast.walk(n)) for c in ast.walk(n) if isinstance(c, ast.Constant) and isinstance(c.value, str)]
+    # the enum class itself is a value the interpreter knows (extracted from its ClassDef): iteration in declaration order, Enum[name], .name, the class's own methods — so a
+    # table DERIVED from the members (`{m.to_hyphenated_string(): m for m in OperationType}`), a search loop over the members or a name reconstruction are decided like the chain
+    ot_model = EnumModel.of(OT)
+    ot_enums = {OT.name: ot_model} if ot_model is not None else {}
+    ot_cls = ot_model.cls if ot_model is not None else Opaque("free", "OperationType")
+    trk_funcs = {f_.name: f_ for f_ in trk.tree.body if isinstance(f_, ast.FunctionDef)}
+    _mod_vals, _in_progress, _cached = {}, set(), {}
 
-    fh_env = {}
-    for nm_ in {x.id for x in ast.walk(fh) if isinstance(x, ast.Name)}:
-        v_ = trk.module_constant(nm_)
-        if v_ is not None:
+    def module_values(mod, names, enums=None, hook=None):
+        """values of module-level names as the module's own top-level statements leave them: the statements that bind or fill a name (a literal, a comprehension over an Enum
+        class, a loop that fills a table) are sliced out of the module body and interpreted in order. A name that cannot be interpreted is left out (it stays uninterpreted)."""
+        out = {}
+        for nm_ in sorted(names):
+            keep = set()
+            slice_before(mod.tree.body, {nm_}, keep)
+            if not keep:
+                continue
+            env = {}
             try:
-                fh_env[nm_] = Sim().ev(v_, {})
-            except (CannotEval, _Sig):
-                pass
+                kind, _, _ = simulate(mod.tree.body, env, keep, hook=hook, enums=enums)
+            except CannotEval:
+                continue
+            if kind == "fallthrough" and nm_ in env:
+                out[nm_] = env[nm_]
+        return out
+
+    def trk_values(f_):
+        """the module-level names of track.py that the function reads, interpreted once (a table filled lazily by the function keeps its contents between calls, as in Python)."""
+        if f_.name not in _mod_vals:
+            if f_.name in _in_progress:
+                return {}
+            _in_progress.add(f_.name)
+            try:
+                bound = set(params_of(f_)) | {x.id for x in ast.walk(f_) if isinstance(x, ast.Name) and isinstance(x.ctx, ast.Store)}
+                _mod_vals[f_.name] = module_values(trk, {x.id for x in ast.walk(f_) if isinstance(x, ast.Name)} - bound - set(trk_funcs) - set(ot_enums), ot_enums, trk_hook)
+            finally:
+                _in_progress.discard(f_.name)
+        return _mod_vals[f_.name]
+
+    def trk_hook(e, env_, sim):
+        """a module-level function of track.py called by name is entered (an extracted helper, e.g. a cached table builder); caching decorators do not change what it returns."""
+        if isinstance(e.func, ast.Name) and e.func.id in trk_funcs and e.func.id not in env_:
+            f_ = trk_funcs[e.func.id]
+            if any(last_attr(d_.func if isinstance(d_, ast.Call) else d_) not in ("lru_cache", "cache") for d_ in f_.decorator_list):
+                return NotImplemented
+            if f_.decorator_list and not e.args and not e.keywords:  # a cached function without arguments: interpreted once, as the cache does
+                if f_.name not in _cached:
+                    _cached[f_.name] = sim.invoke(f_, e, env_, extra=trk_values(f_))
+                return _cached[f_.name]
+            return sim.invoke(f_, e, env_, extra=trk_values(f_))
+        return NotImplemented
+
+    fh_env = trk_values(fh)
+    # a table looked up by the literal may hold further keys than the documented names: they are probed too
+    table_keys = [k_ for v_ in fh_env.values() if isinstance(v_, dict) for k_ in v_ if isinstance(k_, str)]
 
     def resolve(lit):
-        """outcome of the function for this literal: its body is interpreted (if-chain, separate ifs, `in` tuples, a table looked up by the literal — all the same)."""
-        return simulate(stmts_of(fh.body), {**fh_env, vpar: lit, params_of(fh)[0]: Opaque("free", "OperationType")})
+        """outcome of the function for this literal: its body is interpreted (if-chain, separate ifs, `in` tuples, a literal or derived table looked up by the literal, a search
+        over the members, helpers of the module entered — all the same)."""
+        return simulate(stmts_of(fh.body), {**fh_env, vpar: lit, params_of(fh)[0]: ot_cls}, hook=trk_hook, enums=ot_enums)
 
     def member_of(v):
         """X if the value is <track.>OperationType.X."""
@@ -1106,17 +1408,52 @@ def run(chk):
             return v.sig[2]
         return None
 
-    pairs = []
+    def outcome_of(kind, val):
+        """member: returns OperationType.<X> | rejects: raises | other: a definite value that is no member (None, a text, falling off the end) | unknown: an uninterpreted value
+        (e.g. the entry of a table this check could not evaluate) - nothing is concluded from that."""
+        if kind == "return" and member_of(val) is not None:
+            return "member"
+        if kind in ("raise", "error"):
+            return "rejects"
+        if kind in ("return", "fallthrough") and not _has_opaque(val):
+            return "other"
+        return "unknown"
+
+    # role: what the callers treat as "not one of Rally's operation types" - the exception classes handled around the calls of the function in the loader (KeyError on this tree)
+    caught = set()
+    for c in source.calls_in(ldr.tree, attr=fh.name, local=False):
+        tr = next((a for a in source.ancestors(c) if isinstance(a, ast.Try) and any(c is x for b_ in a.body for x in ast.walk(b_))), None)
+        for h in tr.handlers if tr is not None else []:
+            caught |= {"Exception"} if h.type is None else {last_attr(x) for x in (h.type.elts if isinstance(h.type, ast.Tuple) else [h.type])}
+    caught = {c for c in caught if c} or {"KeyError"}
+
+    def is_caught(exc_name):
+        import builtins as _b
+        if exc_name in caught or caught & {"Exception", "BaseException"}:
+            return True
+        a = getattr(_b, exc_name, None)
+        return isinstance(a, type) and any(isinstance(getattr(_b, c, None), type) and issubclass(a, getattr(_b, c)) for c in caught)
+
+    pairs, undecided = [], set()
     try:
-        for lit in dict.fromkeys(lits + [hyphenate(m) for m in members]):
+        for lit in dict.fromkeys(lits + table_keys + [hyphenate(m) for m in members]):
             kind, val, node = resolve(lit)
-            if kind == "return" and member_of(val) is not None:
+            oc = outcome_of(kind, val)
+            if oc == "member":
                 pairs.append((lit, member_of(val), node))
-            elif kind not in ("raise", "error"):
-                chk.unknown("O10.1", f"registry outcome for '{lit}' is not `return OperationType.<Member>`: {kind} {str(val)[:60]}", node if node is not None else fh)
+            elif oc == "unknown":
+                undecided.add(lit)
+                if len(undecided) <= 2:
+                    chk.unknown("O10.1", f"registry outcome for '{lit}' is not `return OperationType.<Member>`: {kind} {str(val)[:60]}", node if node is not None else fh)
         kind, val, node = resolve("\x00no-such-operation-type")
-        ok = (kind == "raise" and isinstance(node, ast.Raise) and "KeyError" in u(node.exc)) or (kind == "error" and str(val).startswith("KeyError"))
-        chk.ob("O10.1", "unknown literal raises KeyError", ok, node if node is not None else fh, f"{kind} {short(node, 60) if kind == 'raise' and node is not None else val}")
+        oc = outcome_of(kind, val)
+        exc_name = (val if kind == "raise" else str(val).split(" ")[0].rstrip(":")) if oc == "rejects" else None
+        if oc == "unknown" or (oc == "rejects" and (not isinstance(exc_name, str) or not exc_name[:1].isupper())):
+            chk.unknown("O10.1", f"the outcome of from_hyphenated_string for a name that is no operation type is not recognised: {kind} {str(val)[:60]}", node if node is not None else fh)
+        else:
+            ok = oc == "rejects" and is_caught(exc_name)
+            chk.ob("O10.1", "unknown literal raises KeyError", ok, node if node is not None else fh,
+                   f"{kind} {short(node, 60) if kind == 'raise' and node is not None else val}" + ("" if ok or oc != "rejects" else f" - the loader handles {sorted(caught)} as 'user-defined operation type'"))
     except CannotEval as e:
         chk.unknown("O10.1", f"from_hyphenated_string cannot be interpreted on a literal: {e}", fh)
         pairs = None
@@ -1124,8 +1461,11 @@ def run(chk):
     chk.ob("O10.1", "literals are distinct", len(lits) == len(set(lits)), fh, f"duplicates: {sorted({x for x in lits if lits.count(x) > 1})}")
     chk.ob("O10.1", "each member is returned by exactly one literal", len(mems) == len(set(mems)), fh, f"duplicates: {sorted({x for x in mems if mems.count(x) > 1})}")
     for m in members if pairs is not None else []:
+        if hyphenate(m) in undecided:
+            continue  # reported as not recognised above: nothing is concluded for this member
         chk.ob("O10.1", f"member {m} reachable from its documented name '{hyphenate(m)}'", (hyphenate(m), m) in [(l, mm) for l, mm, _ in pairs], OT,
-               "" if m in mems else "no literal returns this member", key=f"{_T}:OperationType.from_hyphenated_string:{m}")
+               (f"returned for {[l for l, mm, _ in pairs if mm == m]} instead" if m in mems else "no literal returns this member") if (hyphenate(m), m) not in [(l, mm) for l, mm, _ in pairs] else "",
+               key=f"{_T}:OperationType.from_hyphenated_string:{m}")
     for lit, mem, nd in pairs or []:
         if mem not in members:
             chk.ob("O10.1", f"literal '{lit}' returns a declared member", False, nd, f"OperationType.{mem} is not declared")
@@ -1136,7 +1476,11 @@ def run(chk):
     wrong = []
     try:
         for m in members:
-            kind, val, _ = simulate(stmts_of(th.body), {"self": Record(name=m)})
+            # self is the member itself (its .name is the member name; a table keyed by members finds it), read-only module-level tables and helpers of track.py as above
+            me_ = ot_model.members[m] if ot_model is not None and m in ot_model.members else Record(name=m)
+            kind, val, _ = simulate(stmts_of(th.body), {**trk_values(th), (params_of(th) or ["self"])[0]: me_}, hook=trk_hook, enums=ot_enums)
+            if kind == "return" and _has_opaque(val):
+                raise CannotEval(f"for {m} it returns the uninterpreted {str(val)[:60]}")
             if kind != "return" or val != hyphenate(m):
                 wrong.append(f"{m} -> {repr(val) if kind == 'return' else kind}")
         chk.ob("O10.1", "to_hyphenated_string is the documented hyphenation", not wrong, th, "" if not wrong else f"{len(wrong)} member(s) hyphenated differently: {wrong[:4]}")
@@ -1157,7 +1501,7 @@ def run(chk):
                 return sim.invoke(funcs[e.func.id], e, env_)
             return NotImplemented
 
-        kind, _, node = simulate(stmts, dict(env or {}), keep, hook=hook)
+        kind, _, node = simulate(stmts, dict(env or {}), keep, hook=hook, enums=ot_enums)
         if kind not in ("fallthrough", "return"):
             raise CannotEval(f"interpretation ends in `{kind}` at line {getattr(node, 'lineno', '?')}")
         return seen
@@ -1195,11 +1539,57 @@ def run(chk):
         chk.unknown("O10.1", f"the module-level registry that register_runner stores into was not located ({len(stores)} candidate store(s))", rr)
     else:
         registry = stores[0].value.id
-        ok = any(isinstance(c, ast.Call) and last_attr(c.func) == th.name for c in walk_body(rr))
-        chk.ob("O10.1", "runner registry keyed by the hyphenated string", ok, rr, f"registry `{registry}`; {th.name}() {'applied' if ok else 'not applied'} to an OperationType key")
-        ok = any((isinstance(n, ast.Subscript) and name_of(n.value) == registry) or (isinstance(n, ast.Call) and isinstance(n.func, ast.Attribute) and n.func.attr == "get" and name_of(n.func.value) == registry)
-                 for n in walk_body(rf))
-        chk.ob("O10.1", "runner lookup by the same (hyphenated string) key", ok, rf, f"registry `{registry}`")
+        # decided on values: the statements of register_runner that decide the key of the store are interpreted for an enum member and for a user-defined type name (a text);
+        # the key must be the member's hyphenated name resp. the text itself - whatever converts it (the method, a helper, a conditional expression)
+        rr_params = params_of(rr)
+        keyed, how = None, ""
+        if rr_params and ot_model is not None and members:
+            st_ = source.enclosing_stmt(stores[0])
+            pre_ = statements_before(st_, rr)
+            keep_ = set()
+            slice_before(pre_, _loads(stores[0].slice), keep_)  # the initial value of the parameter is supplied below; what re-binds it on the way is part of the slice
+            rn_funcs_ = {f_.name: f_ for f_ in rn.tree.body if isinstance(f_, ast.FunctionDef) and f_.name not in (rr.name, reg.name)}
+
+            def key_hook(e, env_, sim):
+                if isinstance(e.func, ast.Name) and e.func.id in rn_funcs_ and e.func.id not in env_:
+                    return sim.invoke(rn_funcs_[e.func.id], e, env_)
+                return NotImplemented
+
+            try:
+                got_ = []
+                for arg_ in (ot_model.members[members[0]], ot_model.members[members[-1]], "my-own-operation-type"):
+                    kind, val, _ = simulate(pre_, {rr_params[0]: arg_}, keep_, hook=key_hook, then=stores[0].slice, enums=ot_enums)
+                    if kind != "fallthrough" or (_has_opaque(val) and not isinstance(val, EnumMember)):
+                        raise CannotEval(f"the key is {kind} {str(val)[:40]}")
+                    got_.append(val)  # a text, or the member itself when nothing converts it
+                want_ = [hyphenate(members[0]), hyphenate(members[-1]), "my-own-operation-type"]
+                keyed, how = got_ == want_, f"keys for OperationType.{members[0]} / OperationType.{members[-1]} / a user-defined type name: {got_}"
+            except CannotEval as e:
+                how = str(e)
+        if keyed is None and any(isinstance(c, ast.Call) and last_attr(c.func) == th.name for c in walk_body(rr)):
+            keyed, how = True, f"{th.name}() applied to an OperationType key"
+        if keyed is None:
+            chk.unknown("O10.1", f"how register_runner derives the key of `{registry}` from an OperationType member is not recognised ({how[:120]})", rr)
+        else:
+            chk.ob("O10.1", "runner registry keyed by the hyphenated string", keyed, rr, f"registry `{registry}`; {how}")
+        # the lookup: the key the registry is subscripted / asked with in runner_for is the text it is called with (the operation's type as written in the track)
+        lookups = [(n, n.slice) for n in walk_body(rf) if isinstance(n, ast.Subscript) and name_of(n.value) == registry and isinstance(n.ctx, ast.Load)] + \
+                  [(n, n.args[0]) for n in walk_body(rf) if isinstance(n, ast.Call) and isinstance(n.func, ast.Attribute) and n.func.attr == "get" and name_of(n.func.value) == registry and n.args]
+        if not lookups or not params_of(rf):
+            chk.unknown("O10.1", f"no lookup in the registry `{registry}` (subscript / .get) located in runner_for", rf)
+        else:
+            n_, key_ = lookups[0]
+            try:
+                pre_ = statements_before(source.enclosing_stmt(n_), rf)
+                keep_ = set()
+                slice_before(pre_, _loads(key_), keep_)
+                probe_ = hyphenate(next((m for m in members if "-" in hyphenate(m)), members[0]))  # a documented name with a hyphen, as written in a track
+                kind, val, _ = simulate(pre_, {params_of(rf)[0]: probe_}, keep_, then=key_, enums=ot_enums)
+                if kind != "fallthrough" or _has_opaque(val):
+                    raise CannotEval(f"{kind} {str(val)[:40]}")
+                chk.ob("O10.1", "runner lookup by the same (hyphenated string) key", val == probe_, rf, f"registry `{registry}`; runner_for({probe_!r}) looks up {val!r}")
+            except CannotEval as e:
+                chk.unknown("O10.1", f"the key runner_for looks up in `{registry}` cannot be interpreted: {e}", n_)
     # module-level registrations of the parameter sources: the statements that contain them (and what they read) are interpreted, so a loop over a table counts like the
     # statements written one by one
     ps_stmts = [s_ for s_ in pr.tree.body if not isinstance(s_, (ast.FunctionDef, ast.AsyncFunctionDef, ast.ClassDef))
@@ -1610,9 +2000,14 @@ def run(chk):
     # ---- O10.3 error helper -----------------------------------------------------------------------------------------------------------------------------------
     chk.rule("O10.3", "the error helper raises a track syntax error on every path", 1, "a detected rule violation is only logged and the invalid track is loaded")
     ef = method(ldr, SR, "_error")
-    ge = cfg_of(ef)
-    ok = ge.exit.id not in ge.reachable([ge.entry]) and any(isinstance(n, ast.Raise) and "TrackSyntaxError" in u(n.exc) for n in walk_body(ef))
-    chk.ob("O10.3", "_error has no normal exit", ok, ef, "")
+    ef_normal, ef_classes = raised_classes(ef)
+    # a syntax error of the track: the class itself or a class of the loader module derived from it
+    syntax_errors = {"TrackSyntaxError"} | {c_.name for c_ in ldr.classes() if any(last_attr(b_) == "TrackSyntaxError" for b_ in c_.bases)}
+    if None in ef_classes and not (ef_classes & syntax_errors and not ef_normal):
+        chk.unknown("O10.3", f"the exception class the error helper raises (or the function it hands the message to) is not recognised: {short(stmts_of(ef.body)[-1], 60) if stmts_of(ef.body) else ''}", ef)
+    else:
+        ok = not ef_normal and bool(ef_classes) and ef_classes - {None} <= syntax_errors
+        chk.ob("O10.3", "_error has no normal exit", ok, ef, f"{'a normal exit is reachable; ' if ef_normal else ''}raises {sorted(c_ for c_ in ef_classes if c_)}")
 
     # ---- O10.4 validation dominates construction -----------------------------------------------------------------------------------------------------------------
     chk.rule("O10.4", "schema validation and the version window check dominate the call that builds the track; their failures are re-raised as errors; the schema constrains a key "
@@ -1726,8 +2121,17 @@ def run(chk):
     except CannotEval as e:
         chk.unknown("O10.4", f"TrackFileReader.read cannot be interpreted on a representative specification: {e}", rd)
         read_runs = None
-    ok = len(schema_attrs) == 1 and any("track-schema.json" in u(n) for n in walk_body(sch))
-    chk.ob("O10.4", "the schema is Rally's track-schema.json", ok, sch, f"schema attribute(s) filled from parsed JSON: {sorted(schema_attrs)}")
+    # which file: the *.json file names written in the constructor, or in the helpers of the class / functions of the module it calls (named constants are already literals, N9)
+    def json_names(f_):
+        return {c.value.replace("\\", "/").split("/")[-1] for c in ast.walk(f_) if isinstance(c, ast.Constant) and isinstance(c.value, str) and c.value.endswith(".json")}
+
+    called = [fr_methods[c.func.attr] for c in source.calls_in(sch) if isinstance(c.func, ast.Attribute) and isinstance(c.func.value, ast.Name) and c.func.value.id == "self" and c.func.attr in fr_methods] + \
+             [ldr_funcs[c.func.id] for c in source.calls_in(sch) if isinstance(c.func, ast.Name) and c.func.id in ldr_funcs]
+    schema_files = json_names(sch) | set().union(*[json_names(f_) for f_ in called] or [set()])
+    if not schema_files:
+        chk.unknown("O10.4", "the name of the schema file that TrackFileReader.__init__ parses is not written in the constructor or in a helper it calls", sch)
+    else:
+        chk.ob("O10.4", "the schema is Rally's track-schema.json", "track-schema.json" in schema_files, sch, f"schema attribute(s) filled from parsed JSON: {sorted(schema_attrs)}; file(s) named: {sorted(schema_files)}")
     # sibling cross-check inside the schema: a task key is constrained identically wherever it may be written (plain task, parallel element, task inside a parallel element;
     # corpus level and document level)
     import json as _json
@@ -1821,12 +2225,14 @@ def run(chk):
             defs = local_defs(f)
             for n in walk_body(f):
                 if isinstance(n, ast.Call) and isinstance(n.func, ast.Attribute) and isinstance(n.func.value, ast.Name) and n.func.value.id == "self" and n.func.attr in raising and n.args:
-                    msg = n.args[0]
+                    msgs = [n.args[0]]
+                elif isinstance(n, ast.Call) and isinstance(n.func, ast.Name) and n.func.id in raising_funcs and n.args:
+                    msgs = list(n.args)
                 elif isinstance(n, ast.Raise) and n.exc is not None:
-                    msg = n.exc
+                    msgs = [n.exc]
                 else:
                     continue
-                text = " ".join(str(c.value) for c in ast.walk(source.inline_node(msg, defs)) if isinstance(c, ast.Constant) and isinstance(c.value, str)).lower()
+                text = " ".join(str(c.value) for msg in msgs for c in ast.walk(source.inline_node(msg, defs)) if isinstance(c, ast.Constant) and isinstance(c.value, str)).lower()
                 if all(w in text for w in words):
                     out.append(n)
         return out
@@ -2288,8 +2694,43 @@ def run(chk):
         bp = bind_args(rec[0], ri).get(base_param)
         # role: the included file's path is the single-assignment local handed to dirname(...); it must be the including base path joined with the matched pattern
         inc_local = name_of(bp.args[0]) if isinstance(bp, ast.Call) and len(bp.args) == 1 else None
-        ok = bp is not None and isinstance(bp, ast.Call) and last_attr(bp.func) == "dirname" and inc_local is not None and pat.is_(local_defs(ri).get(inc_local), f"os.path.join({base_param}, E_pattern)")
-        chk.ob("O10.6", "nested includes resolve relative to the included file's directory", ok, rec[0], f"base_path={u(bp) if bp is not None else None}")
+        shape_ok = bp is not None and isinstance(bp, ast.Call) and last_attr(bp.func) == "dirname" and inc_local is not None and pat.is_(local_defs(ri).get(inc_local), f"os.path.join({base_param}, E_pattern)")
+        # decided on values: the statements that compute the base path handed to the recursive call are interpreted for the base path /tracks/t1 and the matched pattern
+        # sub/part-*.json (the loop variable around the call); path functions of os.path / esrally.utils.io on texts are the posixpath ones. Expected: /tracks/t1/sub
+        import posixpath as _pp
+        path_funcs = {"os.path.join": _pp.join, "os.path.dirname": _pp.dirname, "io.dirname": _pp.dirname, "os.path.normpath": _pp.normpath, "io.normalize_path": _pp.normpath,
+                      "os.path.basename": _pp.basename, "io.basename": _pp.basename, "os.path.split": lambda x: list(_pp.split(x))}
+
+        def path_hook(e, env_, sim):
+            d_ = dotted(e.func)
+            if d_ in path_funcs and d_.split(".")[0] not in env_ and not e.keywords:
+                args_ = [sim.ev(a, env_) for a in e.args]
+                if all(isinstance(a, str) for a in args_):
+                    return path_funcs[d_](*args_)
+            return NotImplemented
+
+        nested = None
+        if bp is not None:
+            env_ = {base_param: "/tracks/t1"}
+            for a in source.ancestors(rec[0]):
+                if isinstance(a, ast.For) and source.enclosing_func(a) is ri and isinstance(a.target, ast.Name):
+                    env_[a.target.id] = "sub/part-*.json"
+            pre_ = statements_before(source.enclosing_stmt(rec[0]), ri)
+            keep_ = set()
+            slice_before(pre_, _loads(bp), keep_)
+            try:
+                kind, val, _ = simulate(pre_, env_, keep_, hook=path_hook, then=bp)
+                if kind == "fallthrough" and isinstance(val, str):
+                    nested = val
+            except CannotEval:
+                pass
+        if nested is not None:
+            chk.ob("O10.6", "nested includes resolve relative to the included file's directory", _pp.normpath(nested) == "/tracks/t1/sub", rec[0],
+                   f"base_path={u(bp)}: the parts of /tracks/t1/sub/part-*.json are resolved against {nested!r}")
+        elif shape_ok:
+            chk.ob("O10.6", "nested includes resolve relative to the included file's directory", True, rec[0], f"base_path={u(bp)}")
+        else:
+            chk.unknown("O10.6", f"the base path handed to the recursive replace_includes call cannot be evaluated on a representative include: {u(bp) if bp is not None else None}", rec[0])
     # included text is inserted verbatim: a non-constant replacement handed to re.sub must be a function (a string is a TEMPLATE: backslashes and group references in the
     # included JSON would be re-interpreted)
     n_sub = 0
@@ -2379,8 +2820,14 @@ def run(chk):
     if not top or not joins or len(roots) != 1:
         chk.unknown("O10.6", f"load_template_from_file: the call of replace_includes / the directory the track file is loaded from were not located ({len(top)} call(s), roots {sorted(roots)})", lf)
     else:
-        ok = all(u(bind_args(c, ri).get(joins[0][1])) in roots for c in top)
-        chk.ob("O10.6", "top-level includes resolve relative to the track's directory", ok, top[0], f"includes resolved against {[u(bind_args(c, ri).get(joins[0][1])) for c in top]}; the track file is loaded from {sorted(roots)}")
+        lf_defs = local_defs(lf)
+        roots = {source.inline(c.args[0], lf_defs) for c in walk_body(lf) if isinstance(c, ast.Call) and last_attr(c.func) == "FileSystemLoader" and c.args}
+        bases = [bind_args(c, ri).get(joins[0][1]) for c in top]
+        if any(b_ is None for b_ in bases):
+            chk.unknown("O10.6", "load_template_from_file: the base path handed to replace_includes was not located", top[0])
+        else:
+            ok = all(source.inline(b_, lf_defs) in roots for b_ in bases)
+            chk.ob("O10.6", "top-level includes resolve relative to the track's directory", ok, top[0], f"includes resolved against {[u(b_) for b_ in bases]}; the track file is loaded from {sorted(roots)}")
     # built-in macros (embedded Jinja source): parsed with jinja2's own parser, never rendered
     rt0 = ldr.func("render_template")
 
